@@ -16,7 +16,7 @@ DEVIATIONS = [
     "int-as-long", "float-native", "float-string-lexical", "bool-typed", "bool-typed-01", "bool-json-in-$",
     "lang-with-type", "time-Z", "prefix-in-bundle-too", "prefix-bundle-only", "reverse-keys", "anon-ids-named",
     "default-ns", "members-in-one-record-array", "typed-literal-number-$", "str-typed-number-$", "float-typed-int-$",
-    "empty-containers",
+    "empty-containers", "empty-lang", "time-end-of-day",
 ]
 
 
@@ -74,6 +74,8 @@ def spell_value(v, namer, sites):
         if _int_like(v[1]) and sites.on("str-typed-number-$"):
             # xsd:string whose "$" is spelt as a JSON number: still the string
             return OrderedDict([("$", int(v[1])), ("type", "xsd:string")])
+        if sites.on("empty-lang"):
+            return OrderedDict([("$", v[1]), ("lang", "")])
         if sites.on("str-typed"):
             return OrderedDict([("$", v[1]), ("type", "xsd:string")])
         return v[1]
@@ -124,6 +126,13 @@ def spell_value(v, namer, sites):
 def _int_like(text):
     import re
     return bool(re.match(r"^(0|-?[1-9][0-9]{0,15})$", text))
+
+
+def end_of_day(iso):
+    """the xsd:dateTime spelling <previous day>T24:00:00 of midnight"""
+    import datetime
+    day = datetime.date.fromisoformat(iso[:10]) - datetime.timedelta(days=1)
+    return day.isoformat() + "T24:00:00" + iso[19:]
 
 
 def container(records, namer, sites, anon):
@@ -185,6 +194,8 @@ def container(records, namer, sites, anon):
             if local in REF_ATTRS or local in TIME_ATTRS:
                 v = vs[0]
                 s = namer.name(v[1]) if v[0] == "qn" else (v[1][:-6] + "Z" if v[1].endswith("+00:00") and sites.on("time-Z") else v[1])
+                if v[0] != "qn" and "T00:00:00" in s and "." not in s and sites.on("time-end-of-day"):
+                    s = end_of_day(s)
                 body["prov:" + local] = [s] if sites.on("wrap-formal") else s
             else:
                 sp = [spell_value(v, namer, sites) for v in vs]
